@@ -116,9 +116,14 @@ def hex_of_bytes(I, elems, tag='hex'):
     ctx = I.ctx
     if all(isinstance(e, int) for e in elems):
         return ''.join('%02x' % e for e in elems)
+    key = tuple(str(e) for e in elems)
+    cache = ctx.ghost.setdefault('hexcache', {})
+    if key in cache:
+        return cache[key]
     s = ctx.fresh_str(tag)
     ctx.add_inv(z3.Length(s) == 2 * len(elems))
     ctx.ghost.setdefault('hex', {})[str(s)] = list(elems)
+    cache[key] = s
     return s
 
 
@@ -783,3 +788,209 @@ def os_getenv(I, args, ins):
 
 def install(prog):
     pass
+
+
+# ------------------------------------------------------------------ more strings intrinsics
+
+def _b(s):
+    return s.encode('latin-1')
+
+
+def _s(b):
+    return b.decode('latin-1')
+
+
+def _conc(*xs):
+    return all(isinstance(x, (str, int)) and not isinstance(x, bool) or isinstance(x, bool) for x in xs)
+
+
+@stub('strings.IndexByte')
+def strings_indexbyte(I, args, ins):
+    s, c = args
+    if _conc(s, c):
+        return s.find(chr(c))
+    return z3.IndexOf(zstr(s), z3.StrFromCode(zint(c)), 0)
+
+
+@stub('strings.IndexRune')
+def strings_indexrune(I, args, ins):
+    s, c = args
+    if _conc(s, c):
+        return _b(s).find(chr(c).encode('utf-8'))
+    raise Inconclusive('strings.IndexRune symbolic')
+
+
+@stub('strings.LastIndex')
+def strings_lastindex(I, args, ins):
+    s, p = args
+    if _conc(s, p):
+        return s.rfind(p)
+    return z3.LastIndexOf(zstr(s), zstr(p))
+
+
+@stub('strings.LastIndexByte')
+def strings_lastindexbyte(I, args, ins):
+    s, c = args
+    if _conc(s, c):
+        return s.rfind(chr(c))
+    return z3.LastIndexOf(zstr(s), z3.StrFromCode(zint(c)))
+
+
+@stub('strings.IndexAny')
+def strings_indexany(I, args, ins):
+    s, chars = args
+    if _conc(s, chars):
+        idx = [s.find(c) for c in chars if s.find(c) >= 0]
+        return min(idx) if idx else -1
+    raise Inconclusive('strings.IndexAny symbolic')
+
+
+@stub('strings.ContainsRune')
+def strings_containsrune(I, args, ins):
+    s, c = args
+    if _conc(s, c):
+        return chr(c).encode('utf-8') in _b(s)
+    raise Inconclusive('strings.ContainsRune symbolic')
+
+
+@stub('strings.ContainsAny')
+def strings_containsany(I, args, ins):
+    s, chars = args
+    if _conc(s, chars):
+        return any(c in s for c in chars)
+    if isinstance(chars, str):
+        return b_or(*[z3.Contains(zstr(s), z3.StringVal(c)) for c in chars])
+    raise Inconclusive('strings.ContainsAny symbolic')
+
+
+@stub('strings.Count')
+def strings_count(I, args, ins):
+    s, p = args
+    if _conc(s, p):
+        return s.count(p) if p else len(s) + 1
+    raise Inconclusive('strings.Count symbolic')
+
+
+@stub('strings.Repeat')
+def strings_repeat(I, args, ins):
+    s, n = args
+    if _conc(s, n):
+        return s * n
+    raise Inconclusive('strings.Repeat symbolic')
+
+
+def _trimset(name):
+    def f(I, args, ins):
+        s, cut = args
+        if _conc(s, cut):
+            if name == 'TrimLeft':
+                return s.lstrip(cut)
+            if name == 'TrimRight':
+                return s.rstrip(cut)
+            return s.strip(cut)
+        if name == 'TrimRight' and isinstance(cut, str) and len(cut) == 1:
+            # s = r ++ cut*  where r does not end in cut
+            ctx = I.ctx
+            r = ctx.fresh_str('trimright')
+            tail = ctx.fresh_str('trimmed')
+            ctx.add_inv(zstr(s) == z3.Concat(r, tail))
+            ctx.add_inv(z3.InRe(tail, z3.Star(z3.Re(cut))))
+            ctx.add_inv(z3.Not(z3.SuffixOf(z3.StringVal(cut), r)))
+            return r
+        raise Inconclusive('strings.%s symbolic' % name)
+    return f
+
+
+for _n in ('TrimLeft', 'TrimRight', 'Trim'):
+    STUBS['strings.' + _n] = _trimset(_n)
+
+
+@stub('strings.Fields')
+def strings_fields(I, args, ins):
+    s = args[0]
+    if isinstance(s, str):
+        return I.make_slice(s.split())
+    raise Inconclusive('strings.Fields symbolic')
+
+
+@stub('strings.SplitN')
+def strings_splitn(I, args, ins):
+    s, sep, n = args
+    if _conc(s, sep, n) and sep:
+        if n == 0:
+            return NIL_SLICE
+        return I.make_slice(s.split(sep, n - 1) if n > 0 else s.split(sep))
+    raise Inconclusive('strings.SplitN symbolic')
+
+
+@stub('strings.Cut')
+def strings_cut(I, args, ins):
+    s, sep = args
+    if _conc(s, sep):
+        i = s.find(sep)
+        if i < 0:
+            return TupleV((s, '', False))
+        return TupleV((s[:i], s[i + len(sep):], True))
+    zs, zp = zstr(s), zstr(sep)
+    i = z3.IndexOf(zs, zp, 0)
+    if I.ctx.branch(i >= 0):
+        return TupleV((z3.SubString(zs, 0, i), z3.SubString(zs, i + z3.Length(zp), z3.Length(zs) - i - z3.Length(zp)), True))
+    return TupleV((s, '', False))
+
+
+@stub('strings.Compare')
+def strings_compare(I, args, ins):
+    a, b = args
+    if _conc(a, b):
+        return (a > b) - (a < b)
+    return b_ite(I.lt(a, b), -1, b_ite(I.lt(b, a), 1, 0))
+
+
+@stub('strings.Map')
+def strings_map_fn(I, args, ins):
+    raise Inconclusive('strings.Map')
+
+
+@stub('unicode/utf8.RuneCountInString')
+def utf8_runecount(I, args, ins):
+    s = args[0]
+    if isinstance(s, str):
+        return len(_b(s).decode('utf-8', errors='replace'))
+    raise Inconclusive('RuneCountInString symbolic')
+
+
+@stub('unicode/utf8.DecodeRuneInString')
+def utf8_decoderune(I, args, ins):
+    s = args[0]
+    if isinstance(s, str):
+        if not s:
+            return TupleV((0xFFFD, 0))
+        b = _b(s)
+        for l in (1, 2, 3, 4):
+            try:
+                ch = b[:l].decode('utf-8')
+                if len(ch) == 1:
+                    return TupleV((ord(ch), l))
+            except UnicodeDecodeError:
+                continue
+        return TupleV((0xFFFD, 1))
+    raise Inconclusive('DecodeRuneInString symbolic')
+
+
+@stub('unicode/utf8.RuneLen')
+def utf8_runelen(I, args, ins):
+    r = args[0]
+    if isinstance(r, int):
+        try:
+            return len(chr(r).encode('utf-8'))
+        except (ValueError, UnicodeEncodeError):
+            return -1
+    raise Inconclusive('RuneLen symbolic')
+
+
+@stub('unicode.IsSpace')
+def unicode_isspace(I, args, ins):
+    r = args[0]
+    if isinstance(r, int):
+        return r in (0x09, 0x0a, 0x0b, 0x0c, 0x0d, 0x20, 0x85, 0xa0)
+    return b_or(*[r == c for c in (0x09, 0x0a, 0x0b, 0x0c, 0x0d, 0x20, 0x85, 0xa0)])
